@@ -558,7 +558,30 @@ def c18(run):
         if mm:
             m["site"] = "C18." + mm.group(1)
             m["kind"] = "differs-between-environments"
+    _c18_memcheck(run)
     _c18_scenarios(run)
+
+
+def _c18_memcheck(run):
+    """The recorder's scenarios once more under a definedness checker (valgrind memcheck): a serialiser that writes bytes it never
+    initialised is reported whatever those bytes happen to be ("Syscall param write(buf) points to uninitialised byte(s)")."""
+    if not shutil.which("valgrind"):
+        run.part("memcheck", skipped="valgrind is not installed")
+        return
+    exe = run.harness("det_rec", cxx="g++", extra_flags="-fno-inline", opt="-O0", tag="gcc0")
+    work = os.path.join(vlib.shm_dir(), "memcheck")
+    p = subprocess.run(["timeout", "900", "valgrind", "--quiet", "--error-exitcode=77", exe, "--env", "memcheck", "--paint", "90", "--workdir", work],
+                       capture_output=True, text=True)
+    if p.returncode == 77:
+        first = re.sub(r"==\d+== ?", "", p.stderr)[:900]
+        what = first.split("\n")[0].strip()
+        frames = [l.strip() for l in first.split("\n") if "OP2Utility::" in l][:2]
+        run.mismatches.append(dict(site="C18.memcheck/" + re.sub(r"[^A-Za-z0-9]+", "-", what)[:60], kind="reported-by-the-definedness-checker",
+                                   detail=what + " | " + " | ".join(frames)))
+    elif p.returncode != 0:
+        raise MachineryError(f"the recorder failed under valgrind: rc={p.returncode} {p.stderr[-600:]}")
+    run.traces += 1
+    run.part("determinism recorder under valgrind memcheck", errors=p.returncode == 77)
 
 
 def _c18_scenarios(run):
